@@ -332,6 +332,20 @@ def run(tree, rep, tier):
     observers_fire_eventually(tree, rep, "C18.R6")
     eventual_turn_isolates_calls(tree, rep, "C18.R6")
     r7(tree, prog, rep)
+    # "at most once each": in delegate mode nothing but the Mailbox's de-duplication by PHASE stands between a second copy of the peer's
+    # version message (a replay after a reconnect, or the same plaintext encrypted again) and a second got_versions event - the rule
+    # instances are those of C02.R5
+    from .C02 import r4_r5 as c02_r4_r5
+    sub = type(rep)(rep.pid, rep.tier, rep.seed)
+    c02_r4_r5(tree, prog, sub)
+    for o in sub.obligations:
+        if o["rule"] == "C02.R5":
+            rep.obligations.append(dict(o, rule="C18.R8"))
+            rep.evaluations += 1
+    for v in sub.violations:
+        if v["rule"] == "C02.R5":
+            rep.violation("C18.R8", v["key"].replace("C02.R5", "C18.R8"), v["what"] + " (a second copy of a processed phase reaches the "
+                          "application: got_versions fires twice)", v.get("site"), v.get("detail"), _count=False)
     r1(tree, rep, tier)
 
 
